@@ -31,6 +31,32 @@ theorem rows_complete (o : Opts) (sep : Char) (anc : List Str) (t : Tree) :
   rw [appendRows_eq]
   rfl
 
+/-- What a record carries when no two requested keys coincide (`attr_dict` mode): the node's exact
+path (DataFrames only), name and parent name under the requested keys, followed by the requested
+attribute values `node.get_attr(k)` under their column names, in `attr_dict` order. -/
+theorem record_exact (o : Opts) (sep : Char) (anc : List Str) (t : Tree) (hall : o.allAttrs = false)
+    (hn : ((fixedEntries o sep anc t).map Prod.fst ++ o.attrDict.map Prod.snd).Nodup) :
+    record o sep anc t
+      = fixedEntries o sep anc t ++ o.attrDict.map fun kc => (kc.2, getAttr t.attrs kc.1) := by
+  have h := List.nodup_append.mp hn
+  rw [record_fixed o sep anc t h.1]
+  unfold addAttrs
+  rw [hall]
+  simp only [Bool.false_eq_true, if_false]
+  apply foldl_dset_fresh (fun kc : Str × Str => (kc.2, getAttr t.attrs kc.1)) o.attrDict
+  · simpa using h.2.1
+  · intro x hx hmem
+    exact h.2.2 _ hmem _ (List.mem_map.mpr ⟨x, hx, rfl⟩) rfl
+
+/-- the same in `all_attrs` mode: the fixed entries followed by every public attribute
+(`describe`: sorted by key, without `name` and `_`-prefixed keys). -/
+theorem record_exact_all (o : Opts) (sep : Char) (anc : List Str) (t : Tree) (hall : o.allAttrs = true)
+    (hk : (t.attrs.map Prod.fst).Nodup) (hn : ((fixedEntries o sep anc t).map Prod.fst).Nodup)
+    (hd : ∀ k ∈ (describe t.attrs).map Prod.fst, k ∉ (fixedEntries o sep anc t).map Prod.fst) :
+    record o sep anc t = fixedEntries o sep anc t ++ describe t.attrs := by
+  rw [record_fixed o sep anc t hn]
+  exact addAttrs_full _ _ _ hall hk hd
+
 /-- `tree_to_dict`, unconditionally: the dictionary is the result of assigning
 `d[path_name] = record` for the selected nodes in pre-order. -/
 theorem dict_complete_assign (o : Opts) (sep : Char) (anc : List Str) (t : Tree) :
@@ -141,6 +167,10 @@ theorem exTree_sepfree : AllNodes (SepFree '/') exTree := by
 
 example : (treeToRows { pathCol := "path".toList, skipDepth := 1, leafOnly := true } '/' [] exTree).length = 2 := by
   decide
+example : record { pathCol := "path".toList, parentKey := "parent".toList, attrDict := [("A".toList, "col".toList)] }
+    '/' ["a".toList] (.node 10 "c:d".toList [("A".toList, .int 0)] [])
+    = [("path".toList, .str "/a/c:d".toList), ("name".toList, .str "c:d".toList), ("parent".toList, .str "a".toList),
+       ("col".toList, .int 0)] := by decide
 example : dictToTree '/' (treeToDict (fullOpts []) '/' [] exTree) = some (canon exTree) :=
   dict_roundtrip '/' exTree exTree_ok exTree_sepfree
 example : canon exTree ≠ .node 0 "a".toList [] [] := by decide
